@@ -54,13 +54,18 @@ theorem step_pollNone (hpc : s.pc = .peeked r) (h1 : s.stopClosed = false) (h2 :
     M.step s .pollNone = some { s with pc := .polled r } := by
   simp [lts, step, hpc, h1, h2]
 
+theorem satDur_lt_halfMs (d : Int) : satDur d < halfMs ↔ d < halfMs := by
+  rcases satDur_cases d with ⟨_, _, h⟩ | ⟨h1, h⟩ | ⟨h1, h⟩ <;> rw [h] <;>
+    simp only [halfMs, Kit.Generated.C06.runNowMarginNs, maxDur, minDur] at * <;> omega
+
 theorem step_decide_fire (hpc : s.pc = .polled r) (h : r.time - s.now < halfMs) :
     M.step s .decide = some { s with pc := .firing r, readAt := s.now } := by
-  simp [lts, step, hpc, h]
+  simp [lts, step, hpc, (satDur_lt_halfMs _).mpr h]
 
 theorem step_decide_arm (hpc : s.pc = .polled r) (h : ¬ r.time - s.now < halfMs) :
-    M.step s .decide = some { s with pc := .arming r, timer := r.time - s.now, readAt := s.now } := by
-  simp [lts, step, hpc, h]
+    M.step s .decide = some { s with pc := .arming r, timer := satDur (r.time - s.now), readAt := s.now } := by
+  have : ¬ satDur (r.time - s.now) < halfMs := fun h' => h ((satDur_lt_halfMs _).mp h')
+  simp [lts, step, hpc, this]
 
 theorem step_arm (hpc : s.pc = .arming r) :
     M.step s .arm = some { s with pc := .armed r, timer := s.now + s.timer, armAt := s.now } := by
@@ -248,7 +253,7 @@ theorem from_polled {s : State κ ν} {x r : Item κ ν} (h : Ready s x) (hpc : 
     obtain ⟨s', hs', hd⟩ := from_firing (r := r) hr1 rfl
     exact ⟨s', Steps.cons1 h1 hs', hd⟩
   · have h1 := step_decide_arm hpc hd
-    have ht : Timely { s with pc := Pc.arming r, timer := r.time - s.now, readAt := s.now } := by
+    have ht : Timely { s with pc := Pc.arming r, timer := satDur (r.time - s.now), readAt := s.now } := by
       refine ⟨fun r' hp => by simp at hp, ?_⟩
       intro r' _
       cases hreset : s.reset
@@ -258,8 +263,9 @@ theorem from_polled {s : State κ ν} {x r : Item κ ν} (h : Ready s x) (hpc : 
         · simp [hreset] at hc
         · have := hc x h.mem
           have := h.due
-          show r.time - s.now ≤ 0
-          omega
+          show satDur (r.time - s.now) ≤ 0
+          rcases satDur_cases (r.time - s.now) with ⟨_, _, h'⟩ | ⟨h1, h'⟩ | ⟨h1, h'⟩ <;> rw [h'] <;>
+            simp only [maxDur, minDur] at * <;> omega
       · exact Or.inl rfl
     have hr1 := h.next h1 h.open_ h.mem h.due ht
     obtain ⟨s', hs', hd⟩ := from_arming (r := r) hr1 rfl
